@@ -165,6 +165,7 @@ long vf_check_redzones(void)
     }
     return bad;
 }
+long vf_block_size(const void *p) { pthread_mutex_lock(&ht_mu); vf_block *b = ht_find(p); long r = b ? (long)b->size : -1; pthread_mutex_unlock(&ht_mu); return r; }
 int vf_owns(const void *p) { pthread_mutex_lock(&ht_mu); int r = ht_find(p) != NULL; pthread_mutex_unlock(&ht_mu); return r; }
 long vf_live_count(void) { return (long)ht_n; }
 size_t vf_live_bytes(void) { size_t s = 0; for (size_t i = 0; i < ht_cap; i++) if (ht[i].p && ht[i].p != TOMB) s += ht[i].size; return s; }
